@@ -35,7 +35,7 @@ def build():
                   E('accumulate', 'old(self)@.dom().contains(entity.0) ==> final(self)@ == old(self)@.insert(entity.0, old(self)@[entity.0].add_spec(value))'),
                   E('first', '!old(self)@.dom().contains(entity.0) ==> final(self)@ == old(self)@.insert(entity.0, value)')])
     u.fn(CS, [CI, 'fn clear'], props='C16', key='ChangeSet::clear',
-         hints=[('before', 'unsafe { self.inner.clean(', 'proof { assert(/*@L:hint.mask_taken*/ self.mask@ == Set::<u32>::empty() /*@E*/); }')],
+         hints=[('before', 'unsafe { self.inner.clean(', 'proof { assert(/*@L:hint.mask_taken*/ self.mask@ == Set::<u32>::empty() /*@E*/); }', 'soft')],
          hint_obligations=[E('mask_taken', 'when clean() runs the destructors the change set mask has already been swapped for the empty one', 'C19')],
          requires=[E('wf', 'old(self).wf()')],
          ensures=[E('wf', 'final(self).wf()'), E('empty', 'final(self)@ == Map::<Index, T>::empty()')])
